@@ -41,6 +41,11 @@ def judge(prog, run, res, out: Outcome, inject, body_fails):
         pend = [str(p) for p, t in run.tasks.items() if not t.done()]
         out.violate("term", f"C06.term/leaving-never-terminates/{tag}", f"pending spawned tasks {pend}; inject={inject}")
         return classes
+    for e in run.log:
+        if e["ev"] == "spawn_raised" and e["owner"] is None and "t" not in tuple(e["path"]):
+            # outside any scope a spawn yields a detached, running task - whatever scopes were entered and left before
+            classes.add("detached-spawn")
+            out.violate("detached", f"C06.detached/spawn-outside-any-scope-raised/{type(e['exc']).__name__}/{tag}", f"at {e['path']}: {e['exc']!r}")
     seq = {id(e): i for i, e in enumerate(run.log)}
     ends = {tuple(e["path"]): e for e in run.log if e["ev"] == "task_end"}
     vdone = next((e for e in run.log if e["ev"] == "victim_done"), run.log[-1])
